@@ -270,7 +270,8 @@ func genC06(ctx *Ctx) error {
 			if st < 0 {
 				st = 999
 			}
-			fmt.Fprintf(&b, "  ⟨%d, %d, %d, %v, %d, %v, %v, %d, %d⟩%s\n", r.FW, r.Loc, r.Kind, r.Required, r.Stimulus, r.ErrH, r.Ran, st, r.Errs, sep)
+			ty := map[string]int{"str": 0, "int32": 1, "bool": 2, "date": 3, "uuid": 4, "arrI": 5, "obj": 6}[strings.Split(r.Shape, "/")[3]]
+			fmt.Fprintf(&b, "  ⟨%d, %d, %d, %d, %v, %d, %v, %v, %d, %d⟩%s\n", r.FW, r.Loc, r.Kind, ty, r.Required, r.Stimulus, r.ErrH, r.Ran, st, r.Errs, sep)
 		}
 		b.WriteString("]\n")
 		n++
